@@ -1,0 +1,98 @@
+//go:build verif
+
+// Package vhook holds verification hooks (build tag "verif"): named delay points that widen the window
+// between two critical sections, and an in-memory event log that tells a monitor when asynchronous work is done.
+package vhook
+
+import (
+	"fmt"
+	"sync"
+	"time"
+)
+
+// Ev is one recorded event.
+type Ev struct {
+	Seq  int
+	Name string
+	KV   []any
+}
+
+var (
+	mu     sync.Mutex
+	cond   = sync.NewCond(&mu)
+	events []Ev
+	counts = map[string]int{}
+	delays = map[string]time.Duration{}
+	seq    int
+)
+
+// SetDelay configures how long Point(name) sleeps (0 disables).
+func SetDelay(name string, d time.Duration) {
+	mu.Lock()
+	delays[name] = d
+	mu.Unlock()
+}
+
+// Point sleeps for the delay configured for name.
+func Point(name string) {
+	mu.Lock()
+	d := delays[name]
+	counts["point:"+name]++
+	mu.Unlock()
+	if d > 0 {
+		time.Sleep(d)
+	}
+}
+
+// Event appends an event to the log.
+func Event(name string, kv ...any) {
+	mu.Lock()
+	seq++
+	events = append(events, Ev{Seq: seq, Name: name, KV: kv})
+	counts[name]++
+	cond.Broadcast()
+	mu.Unlock()
+}
+
+// Count returns how many events (or "point:<name>" passages) were seen.
+func Count(name string) int {
+	mu.Lock()
+	defer mu.Unlock()
+	return counts[name]
+}
+
+// WaitCount blocks until at least n events with the name were seen, or the timeout expires.
+func WaitCount(name string, n int, timeout time.Duration) bool {
+	deadline := time.Now().Add(timeout)
+	timer := time.AfterFunc(timeout, func() { mu.Lock(); cond.Broadcast(); mu.Unlock() })
+	defer timer.Stop()
+	mu.Lock()
+	defer mu.Unlock()
+	for counts[name] < n {
+		if time.Now().After(deadline) {
+			return false
+		}
+		cond.Wait()
+	}
+	return true
+}
+
+// Drain returns and clears the event log (counts are kept).
+func Drain() []Ev {
+	mu.Lock()
+	defer mu.Unlock()
+	out := events
+	events = nil
+	return out
+}
+
+// Reset clears log, counts and delays.
+func Reset() {
+	mu.Lock()
+	events = nil
+	counts = map[string]int{}
+	delays = map[string]time.Duration{}
+	mu.Unlock()
+}
+
+func (e Ev) String() string { return fmt.Sprintf("%d:%s%v", e.Seq, e.Name, e.KV) }
